@@ -7,7 +7,7 @@ from ..mirutil import (success_edges, dominated_by_ok, result_return_sites, forw
 from ..region import (pregate_region, write_summary, switch_edges_on_variant, dominated_by_edges)
 from .. import anchors as A
 
-READERS = ("ReadBytesExt::read_u8", "ReadBytesExt::read_u16", "ReadBytesExt::read_u32", "ReadBytesExt::read_u64",
+READERS = ("io::Read::read_exact", "io::Read::read", "io::Read::read_to_end", "ReadBytesExt::read_u8", "ReadBytesExt::read_u16", "ReadBytesExt::read_u32", "ReadBytesExt::read_u64",
            "ReadBytesExt::read_f32", "io::Read::read_exact", "Read>::read_exact", "io::Read::read", "read_to_end")
 
 
